@@ -41,6 +41,10 @@ def run(prop: str, tier: str) -> int:
         from . import props_total
 
         return props_total.run(prop, tier)
+    if prop == "C02":
+        from . import props_layers
+
+        return props_layers.run(prop, tier)
     raise SystemExit(f"no check registered for {prop}")
 
 
